@@ -78,7 +78,7 @@ func c16Failing(r *ev.Rand, st *c16State, seq int) hx.Op {
 		return existing[r.Intn(len(existing))]
 	}
 	for {
-		switch r.Intn(30) {
+		switch r.Intn(34) {
 		case 0:
 			return hx.Op{K: "create_ds", Path: "", DT: "i32", Dims: []uint64{2}, Tag: "ds-empty-name"}
 		case 1:
@@ -181,6 +181,30 @@ func c16Failing(r *ev.Rand, st *c16State, seq int) hx.Op {
 			return hx.Op{K: "extlink", Path: anyExisting(), File: "o.h5", Target: "/x", Tag: "extlink-existing-name"}
 		case 28:
 			return hx.Op{K: "densegroup", Path: fresh, Links: map[string]string{"l": "/no/such/target"}, Tag: "densegroup-missing-target"}
+		case 29, 30, 31, 32:
+			// attribute writes that fail after validation of the name: a value larger than any
+			// attribute storage takes (object header and 64 KiB heap objects), an unsupported or
+			// empty value — on a new name and, above all, on a name that already holds a value
+			// (the old value must survive the failed replacement)
+			if len(st.dss) == 0 {
+				continue
+			}
+			d := st.dss[r.Intn(len(st.dss))]
+			name, where := "huge_new", "new-name"
+			if names := st.attrs[d.path]; len(names) > 0 && r.Chance(3, 4) {
+				name, where = names[r.Intn(len(names))], "existing-name"
+			}
+			switch r.Intn(3) {
+			case 0:
+				v := hx.GenNumeric(r, "[]f64", r.Range(8200, 9500), 2)
+				return hx.Op{K: "attr", Path: d.path, Name: name, Data: &v, Tag: "attr-value-too-large:" + where}
+			case 1:
+				v := hx.Val{Kind: attrBadKinds[r.Intn(len(attrBadKinds))]}
+				return hx.Op{K: "attr", Path: d.path, Name: name, Data: &v, Tag: "attr-unsupported-value:" + where}
+			default:
+				v := hx.Val{Kind: "str", S: []string{strings.Repeat("x", r.Range(65530, 70000))}}
+				return hx.Op{K: "attr", Path: d.path, Name: name, Data: &v, Tag: "attr-string-too-large:" + where}
+			}
 		default:
 			if len(st.dss) == 0 {
 				continue
